@@ -44,8 +44,8 @@ ASSUMPTIONS = [
     'classes carry additional identifiers over their referential attributes) and every one-hop navigation is asked, then ONE change '
     'is made -- every enabled operation of the state, and every write of N, S and of a non-referential identifying attribute '
     '(to a fresh value and to the value of another instance) of every live instance -- and the menus of the state before and '
-    'after the change are asked again and compared with the reference; thorough tier: a second change after every attribute '
-    'write. Attribute writes are not operations of the search itself (they would multiply the state space by the value alphabet)',
+    'after the change are asked again and compared with the reference; thorough tier: after every write of an identifying '
+    'attribute a second change (any but creations and writes of N / S). Attribute writes are not operations of the search itself (they would multiply the state space by the value alphabet)',
 ]
 EXTRA = [('N', 'integer'), ('S', 'string')]
 # value choices for the j-th instance created of a class: ties in N, in S, in both and in neither all occur
@@ -596,10 +596,10 @@ class QueryModel(c02.CappedModel):
     def requery_probes(self, ctx, w, hist):
         for op in self.requery_changes(w):
             r = self.requery_run(ctx, hist, [op])
-            if r and self.tier != 'quick' and op[0] == 'set':
-                # thorough: every second change after an attribute write
+            if r and self.tier != 'quick' and op[0] == 'set' and op[2] not in ('N', 'S'):
+                # thorough: after a write of an identifying attribute every second change except creations and writes of N / S
                 for op2 in self.requery_changes(r):
-                    if op2[0] != 'new':
+                    if op2[0] != 'new' and not (op2[0] == 'set' and op2[2] in ('N', 'S')):
                         self.requery_run(ctx, hist, [op, op2])
 
     def mutation_probes(self, ctx, w, kind, pool, bad, labels):
